@@ -72,6 +72,7 @@ func targetMain(args []string) {
 	ip2 := fs.String("ip2", "", "address of the dispatcher-only end host")
 	kinds := fs.String("kinds", "ip", "comma separated: ip,scion,disp,ntske,ntskequic,csptp")
 	ntpPort := fs.Int("ntpport", 123, "NTP port (IP)")
+	zone := fs.String("zone", "", "interface zone of the IP and SCION listeners (hardware timestamping; on lo no timestamp control message ever arrives)")
 	scionPort := fs.Int("scionport", 10123, "NTP port (SCION)")
 	ia := fs.String("ia", "1-ff00:0:110", "local ISD-AS (NTS-KE over SCION)")
 	daemon := fs.String("daemon", "", "SCION daemon address handed to the SCION server (DRKey)")
@@ -90,9 +91,9 @@ func targetMain(args []string) {
 	for _, k := range strings.Split(*kinds, ",") {
 		switch k {
 		case "ip":
-			server.StartIPServer(ctx, log, &net.UDPAddr{IP: lip, Port: *ntpPort}, 0, provider)
+			server.StartIPServer(ctx, log, &net.UDPAddr{IP: lip, Port: *ntpPort, Zone: *zone}, 0, provider)
 		case "scion":
-			server.StartSCIONServer(ctx, log, *daemon, &net.UDPAddr{IP: lip, Port: *scionPort}, 0, provider)
+			server.StartSCIONServer(ctx, log, *daemon, &net.UDPAddr{IP: lip, Port: *scionPort, Zone: *zone}, 0, provider)
 		case "disp":
 			server.StartSCIONDispatcher(ctx, log, &net.UDPAddr{IP: net.ParseIP(*ip2), Port: 0})
 		case "ntske":
